@@ -8,6 +8,9 @@ procs = [p for p in mod.PROCS if len(sys.argv) < 3 or any(s in p.name for s in s
 t0 = time.time()
 res = cfun.verify_cprocs(procs, mod.FIELDS)
 axioms = core.prelude_axioms() + core.strlit_axioms() + cfun.api_axioms() + list(mod.AXIOMS)
+for lbl, hyps, goal in getattr(mod, 'LEMMAS', []):
+    r, = solve.discharge([(lbl, solve.to_smt2(list(getattr(mod, 'LEMMA_AXIOMS', axioms)), hyps, goal))])
+    print('lemma', lbl, 'z3=%s cvc5=%s' % (r.z3, r.cvc5))
 for p, status, detail, obls, paths, ex in res:
     print('==', p.name, status, detail, 'paths', paths)
     items = [(o.label, solve.to_smt2(axioms, o.hyps, o.goal)) for o in obls]
